@@ -36,6 +36,15 @@ TRecover == Ev("Recover") /\ Recover /\ UNCHANGED seenIdx
 TLogRollback == Ev("LogRollback") /\ LogRollback(Line.gcons, Line.gack) /\ UNCHANGED seenIdx
 \* steps without an effect on the modelled state
 TSyncGC == Ev("SyncGC") /\ SyncGC /\ UNCHANGED seenIdx
+TExpireCheck == Ev("ExpireCheck") /\ ExpireCheck(Line.expired) /\ UNCHANGED seenIdx
+\* after the log of an expired family was destroyed only the data side is projected (a recovered node opens a new log)
+TProjData ==
+  /\ Ev("ProjData")
+  /\ Line.fseq = fSeq /\ Line.dseq = dSeq
+  /\ DOMAIN Line.dict = DOMAIN AllDict
+  /\ \A n \in DOMAIN AllDict : Line.dict[n] = AllDict[n]
+  /\ UNCHANGED vars
+  /\ UNCHANGED seenIdx
 \* Shard.FlushIndex observed through the kv seam: prepare, then one IdxCommit per manifest commit of an index family:
 \* metric inverted index, forward index, inverted index (part "index", in this order), then the series family.
 \* A new series with a tag has entries in all three; the shard index finds a series by metric AND by tag, i.e.
@@ -83,7 +92,7 @@ TFinal ==
   /\ UNCHANGED seenIdx
 
 TraceNext == TReset \/ TAppend \/ TReplicaStep \/ TRBegin \/ TRWrite \/ TRCommit \/ TMetaFlush \/ TFamilyCommit \/ TFamilyAck \/ TCrash \/ TRecover \/ TLogRollback
-             \/ TSyncGC \/ TIdxPrepare \/ TIdxCommit \/ TIdxDone \/ TStutter \/ TProj \/ TFinal
+             \/ TSyncGC \/ TExpireCheck \/ TProjData \/ TIdxPrepare \/ TIdxCommit \/ TIdxDone \/ TStutter \/ TProj \/ TFinal
 TraceSpec == TraceInit /\ [][TraceNext]_tvars
 HighWater == TLCSet(1, IF l > TLCGet(1) THEN l ELSE TLCGet(1))
 TraceAccepted ==
